@@ -164,6 +164,7 @@ def run(ctx, rep):
     past_hash_cleared_rule(P, rep, 'R-C10-7')
     empty_disk_rule(P, rep)
     empty_disk_search_rule(P, rep, 'R-C10-8s')
+    info_oldest_rule(P, rep, 'R-C10-6o')
 
 
 # written member -> restored member, when the two sides legitimately use different names
@@ -772,3 +773,85 @@ def empty_disk_search_rule(P, rep, rid):
                 if not ok and bad is None:
                     bad = 'blockmax %d, extent [%d,%d): comparator returns %d, expected %s -- a disk whose only content is a deleted extent reaching the end of the used range is declared empty, its DELETED blocks are dropped by the next save and the pending parity update is forgotten' % (bm, pos, pos + cnt, r, '0 (found)' if pos < bm else 'negative')
     rep.check(bad is None, rid, '%s: found iff the extent begins below blockmax' % cf, g.file, '%d evaluations' % n if bad is None else bad, function=cf, construct='empty search predicate')
+
+
+def info_oldest_rule(P, rep, rid):
+    """the writer stores every per-stripe time as an offset from the oldest time of the array, and clips a time below that base to
+    the base.  The base is computed in state_write_content by a minimum search over the info words; interpreted (E10) over arrays of
+    info words that include a word WITHOUT a time (a stripe marked bad before it was ever synced has flags and time 0): the base must
+    not be above any real (non-zero) time of a required position -- otherwise every older stripe is saved, and reloaded, with a newer
+    sync / scrub time than it had in memory (the age history that scrub plans and status reports is reset)."""
+    from .. import region as RG
+    import itertools
+    f = P.fn('state_write_content')
+    rep.analysed(f)
+    rep.rule(rid, 'state_write_content: the base time of the info record is <= every non-zero time of the required positions (arrays of length <= 4 over times 0 / 16 / 24 / 40 with and without the bad flag)', 1)
+    mk = (P.variants('info_make') or [None])[0]
+    if mk is None:
+        raise AnalysisBroken('info_make not found')
+    gi = [c for c in f.calls('info_get')]
+    if not gi:
+        raise AnalysisBroken('state_write_content: info_get not found')
+    h = f.loop_of(gi[0].block)
+    if h is None:
+        raise AnalysisBroken('state_write_content: the minimum search loop was not found')
+    pre = [b for b in f.pred[h] if b != h and b not in f.loops[h]]
+    if len(pre) != 1:
+        raise AnalysisBroken('state_write_content: no single preheader')
+    # the local that receives the minimum: the i64 local stored in the loop with a value derived from info_get_time / the info word
+    cand = set()
+    for i in f.all_insts():
+        if i.op == 'store' and i.block in f.loops[h]:
+            a = f.inst_of(i.ops[1])
+            if a is not None and a.op == 'alloca' and a.id not in f.arg_allocas() and any(x[0] == 'call' and x[1].startswith('info_get') for x in f.value_sources(i.ops[0])):
+                cand.add(a.id)
+    stores_in_pre = {f.strip(i.ops[1])[1] for i in f.blocks[pre[0]] if i.op == 'store' and f.const_of(i.ops[0]) == 0 and f.inst_of(i.ops[1]) is not None and f.inst_of(i.ops[1]).op == 'alloca'}
+    mins = [a for a in cand if a in stores_in_pre]
+    if len(mins) != 1:
+        raise AnalysisBroken('state_write_content: the base time local was not identified (%s)' % sorted(cand))
+    a_min = mins[0]
+
+    class Done(Exception):
+        pass
+    palette = [None, (0, 1), (16, 0), (24, 0), (24, 1), (40, 0)]
+    words = {p: (0 if p is None else (RG.Region(P).run(mk, 0, [p[0], p[1], 0, 0]) & 0xffffffff)) for p in palette}
+    bad = None; n = 0
+    for ln in range(1, 5):
+        for arr in itertools.product(palette, repeat=ln):
+            if all(a is None for a in arr):
+                continue
+            infos = [words[a] for a in arr]
+            def ext(ins, args):
+                c = ins.callee
+                if c == 'time':
+                    return (1000,)
+                if c == 'fs_position_is_required':
+                    return (1 if args[1] < ln and arr[args[1]] is not None else 0,)
+                if c == 'info_get':
+                    return (infos[args[1]] if args[1] < ln else 0,)
+                if c in ('info_set', 'fs_position_clear_deleted'):
+                    return (0,)
+                if P.functions.get(ins.callee_full) is not None and not P.functions[ins.callee_full].decl and (c or '').startswith('info_'):
+                    return None
+                raise Done()
+            R = RG.Region(P, extern=ext)
+            R.discover = []
+            sp = RG.P_(('obj', 'state'), 0); R.zero_regions.add(sp.reg)
+            try:
+                R.set_local(f, 'state', sp)
+                R.set_local(f, 'blockmax', ln)
+            except Exception as e:
+                raise AnalysisBroken('state_write_content: locals not found: %s' % e)
+            try:
+                k0 = [i.idx for i in f.blocks[pre[0]] if i.op == 'store' and f.strip(i.ops[1]) == ['i', a_min]][0]
+                R.run(f, pre[0], [], start_idx=k0)
+            except Done:
+                pass
+            except RG.Unsupported as e:
+                raise AnalysisBroken('cannot interpret the base time search: %s' % e)
+            n += 1
+            got = R.mem.get((R.local_by_id(f, a_min).reg, 0), 0)
+            real = [a[0] for a in arr if a is not None and a[0] != 0]
+            if real and got > min(real) and bad is None:
+                bad = 'stripes %s (time, bad): base time %d although a stripe has time %d: every stripe older than the base is saved with the base time -- its sync / scrub age is lost at the next save' % ([a for a in arr], got, min(real))
+    rep.check(bad is None, rid, 'state_write_content: base time = oldest real time', f.blocks[h][0].loc(), '%d info arrays' % n if bad is None else bad, function='state_write_content', construct='oldest time search')
